@@ -38,8 +38,10 @@ def main():
             return res
         os.makedirs(os.path.join(wt, "tests"), exist_ok=True)
         shutil.copy(os.path.join(d, "demo.rs"), os.path.join(wt, "tests", "demo.rs"))
+        feat = ["--features", "verif_hooks"] if "probminhash::verif" in open(os.path.join(d, "demo.rs")).read() else []
+        res["demo_uses_verif_hooks"] = bool(feat)
         # demo on the clean tree
-        rc, out = sh(["cargo", "test", "--offline", "--release", "--test", "demo"], cwd=wt, env=env)
+        rc, out = sh(["cargo", "test", "--offline", "--release", "--test", "demo"] + feat, cwd=wt, env=env)
         res["demo_clean_exit"] = rc
         res["demo_clean_tail"] = out[-400:]
         # apply
@@ -51,7 +53,7 @@ def main():
         res["files_changed"] = sh(["git", "-C", wt, "diff", "--stat", "--", "src"])[1].strip().splitlines()[-1:]
         rc, out = sh(["cargo", "build", "--offline", "--features", "verif_hooks"], cwd=wt, env=env)
         res["builds_with_hooks"] = rc == 0
-        rc, out = sh(["cargo", "test", "--offline", "--release", "--test", "demo"], cwd=wt, env=env)
+        rc, out = sh(["cargo", "test", "--offline", "--release", "--test", "demo"] + feat, cwd=wt, env=env)
         res["demo_patched_exit"] = rc
         res["demo_patched_tail"] = out[-600:]
         if not skip_suite:
